@@ -202,4 +202,6 @@ class JobArrayer:
         else:
             self._submit_jobs(jobs)
 
-        self.num_pending -= len(jobs)
+        # Lock, since add_job() updates the count concurrently.
+        with self._lock:
+            self.num_pending -= len(jobs)
